@@ -23,7 +23,7 @@
    case line:  ids, flags, [path; ...], kind-specific constructor lists, operations ...,
                optionally [-1] and a second object in the same format. *)
 From Coq Require Import ZArith List Bool.
-From SP Require Import Base.Result Base.Bytes Run.Marshal Model.PduHeader Run.DispHdr
+From SP Require Import Base.Result Base.Bytes Run.Marshal Model.PduHeader Model.PduHeaderOps Run.DispHdr
   Model.FileDirective Model.Lv Model.Tlv Model.Eof Model.Ack Model.Prompt Model.KeepAlive
   Model.Finished Model.Metadata Model.Nak.
 From SP Require Run.DispPduA Run.DispPduB Run.DispPduC.
@@ -158,6 +158,16 @@ Definition gen_step (s : hst) (code : Z) (r : list Z) : hst * list Z :=
            do f' <- fdir_set_entity_ids f a b; Ok (setf f'))
   else if code =? 108 then acc (setf (fdir_set_meta f v))
   else if code =? 109 then acc (setf (fdir_set_type f v))
+  (* 110: <byte field>.value = w IN PLACE on the PDU's own configuration (field v: 0 source, 1 destination,
+     2 sequence number).  While that object is still the caller's (the constructor's copy of the PduConfig is
+     shallow) the adapter first gives the PDU an object of its own with the same value and width, and it packs
+     once before the assignment; neither changes a value, so the operation is the int branch of the value
+     setter (util.py) on that field *)
+  else if code =? 110 then
+    upd s (do u <- PduHeaderOps.conf_get_field (fdir_conf f) v;
+           do u' <- PduHeaderOps.ubf_set_int u (nth 1 r 0);
+           do c' <- PduHeaderOps.conf_set_field (fdir_conf f) v u';
+           Ok (setf (fdir_with_conf f c')))
   (* 120: pack() observed; 121: packet_len, pdu_data_field_len, header_len observed *)
   else if code =? 120 then (s, pack_entry (k_pack k))
   else if code =? 121 then (s, [fdir_packet_len f; h_dlen (fd_hdr f); fdir_header_len f])
